@@ -17,9 +17,6 @@ Fixpoint cnt (c : nat) (l : list nat) : nat :=
   match l with [] => 0 | x :: r => (if Nat.eqb c x then 1 else 0) + cnt c r end.
 Definition qof (c : nat) (p : pc) : nat := match p with Join _ q _ _ => cnt c q | SWait _ q _ => cnt c q | _ => 0 end.
 Fixpoint sumq (c : nat) (l : list pc) : nat := match l with [] => 0 | p :: r => qof c p + sumq c r end.
-(* field f of closure c, d when c does not exist *)
-Definition G {A} (f : clo -> A) (d : A) (s : st) (c : nat) : A :=
-  match nth_error (clos s) c with Some x => f x | None => d end.
 (* where closure c is: invoked + destroyed un-run + queued + swapped out by a stop() in progress *)
 Definition tot (s : st) (c : nat) : nat := G cran 0 s c + G cdrop 0 s c + cnt c (queue s) + sumq c (thrs s).
 Arguments cnt : simpl never.
@@ -630,13 +627,6 @@ Proof.
 Qed.
 
 (* ---------- invariant B: basic safety facts ---------- *)
-Definition is_client_after (a : after) : bool := match a with AWorker _ _ => false | _ => true end.
-Definition is_client (p : pc) : bool :=
-  match p with
-  | CAt _ | CXWait | CDtor | CDone => true
-  | Join _ _ _ a | SWait _ _ a | SFin a => is_client_after a
-  | _ => false
-  end.
 Definition in_stop (p : pc) : bool := match p with Join _ _ _ _ | SWait _ _ _ | SFin _ => true | _ => false end.
 
 (* the thread found its own entry in _threads, detached it and reset _current *)
@@ -657,7 +647,8 @@ Record InvB (s : st) : Prop := {
   b_swait : forall i l q a, T s i = Some (SWait l q a) -> l = [] /\ q = [] /\ is_cur a = false;
   b_thr : forall w, In w (threads s) -> nclients s <= w < length (thrs s);
   b_ext : forall i p, T s i = Some p -> i < nclients s -> is_client p = false -> In i (extw s);
-  b_det : forall i p, T s i = Some p -> i < nclients s -> det_of p = false
+  b_det : forall i p, T s i = Some p -> i < nclients s -> det_of p = false;
+  b_thrlen : length (threads s) <= length (thrs s)
 }.
 
 Lemma TT_set s s' i p old : T s i = Some old -> thrs s' = set_nth (thrs s) i p ->
@@ -687,7 +678,7 @@ Lemma invb_frame s s' i p old : InvB s -> T s i = Some old ->
   (i < nclients s -> det_of p = false) ->
   InvB s'.
 Proof.
-  intros [B1 B2 B3 B4 B5 B6 B7 B8 B9 B10 B11 B12 B13] H Et En Pc1 Pc2 X1 X2 X3 X4 X5 X6 X7 X8 X9 X10 X11 X12 X13 X14.
+  intros [B1 B2 B3 B4 B5 B6 B7 B8 B9 B10 B11 B12 B13 B14] H Et En Pc1 Pc2 X1 X2 X3 X4 X5 X6 X7 X8 X9 X10 X11 X12 X13 X14.
   pose proof (TT_set s s' i p old H Et) as TT.
   assert (LEN : length (thrs s') = length (thrs s)) by (rewrite Et; apply set_nth_length).
   constructor; auto.
@@ -715,6 +706,7 @@ Proof.
   - intros j pj. rewrite TT, En. destruct (Nat.eqb_spec i j) as [E|E].
     + intros Q. inversion Q; subst. auto.
     + apply B13.
+  - rewrite LEN. destruct X11 as [F|F]; rewrite F; [exact B14|cbn; lia].
 Qed.
 
 Lemma set_nth_same_id {A} (l : list A) : forall i x, nth_error l i = Some x -> set_nth l i x = l.
@@ -1014,7 +1006,7 @@ Qed.
 (* InvB does not read tokens / woken *)
 Lemma inv_b_wake s i : InvB s -> InvB (wake s i).
 Proof.
-  intros [B1 B2 B3 B4 B5 B6 B7 B8 B9 B10 B11 B12 B13].
+  intros [B1 B2 B3 B4 B5 B6 B7 B8 B9 B10 B11 B12 B13 B14].
   unfold wake. destruct (is_woken s i); constructor; auto.
 Qed.
 
@@ -1138,7 +1130,7 @@ Proof.
 Qed.
 
 Lemma invb_uad s b : InvB s -> InvB (with_uad s b).
-Proof. intros [B1 B2 B3 B4 B5 B6 B7 B8 B9 B10 B11 B12 B13]. constructor; auto. Qed.
+Proof. intros [B1 B2 B3 B4 B5 B6 B7 B8 B9 B10 B11 B12 B13 B14]. constructor; auto. Qed.
 
 Theorem invb_step s i : InvB s -> enabled s i = true -> InvB (step s i).
 Proof.
@@ -1204,6 +1196,7 @@ Proof.
   - intros w Hin. rewrite THR in Hin. apply in_seq in Hin. rewrite NC, TH, app_length, repeat_length. lia.
   - intros i p H L C. destruct (CLS i p H) as [(_ & r & ->)|(L2 & _)]; [|lia]. rewrite next_client_client in C. discriminate.
   - intros i p H L. apply plain_det. apply (PLAIN i p H).
+  - rewrite THR, TH, seq_length, app_length, repeat_length. lia.
 Qed.
 
 Theorem invb_reachable ops s : reachable ops s -> InvB s.
